@@ -84,11 +84,11 @@ def abstract_charts(tier="thorough"):
 
 def _picked_charts():
     out = []
-    for keys in (4, 7, 6, 8):
+    for keys in (4, 7, 6, 8, 16):
         for t0 in (0, 341):
             for bn, bl in BPM_LISTS.items():
                 for ln, lay in LAYOUTS.items():
-                    if keys in (6, 8) and (bn != "change" or ln not in ("holds", "allcols")):
+                    if keys in (6, 8, 16) and (bn != "change" or ln not in ("holds", "allcols")):
                         continue
                     notes = [(F(1 + c), c, None if c % 2 else F(1, 2)) for c in range(keys)] if lay == "all" else [(b, c if c >= 0 else keys - 1, l) for b, c, l in lay]
                     out.append(dict(keys=keys, t0=t0, bpms=bl, notes=notes, name=f"{keys}k/t0={t0}/{bn}/{ln}"))
@@ -262,6 +262,9 @@ def sources_for(ch):
     if ch.get("meter"):
         return ["osu"]
     out = []
+    if ch["keys"] == 16:
+        # the widest BME layout (double play): only osu (<= 18 keys) and BMS can hold it; the other targets must refuse
+        return ["osu"] + (["bms"] if ch["t0"] == 0 else [])
     if ch["keys"] in (4, 7):
         out += ["osu", "qua"]
     out.append("sm")
@@ -309,7 +312,7 @@ def converters(game):
 
 def bound(tier, seed):
     cs = abstract_charts(tier)
-    return dict(abstract_charts=len(cs), triples=sum(len(converters(g)) for c in cs for g in sources_for(c)), key_counts=[4, 7, 6, 8], first_tempo_points=[0, 341], tempo_lists=list(BPM_LISTS), note_layouts=list(LAYOUTS),
+    return dict(abstract_charts=len(cs), triples=sum(len(converters(g)) for c in cs for g in sources_for(c)), key_counts=[4, 7, 6, 8, 16], first_tempo_points=[0, 341], tempo_lists=list(BPM_LISTS), note_layouts=list(LAYOUTS),
                 combinatorial=None if tier == "quick" else dict(notes_per_chart="1..2", beats=[str(b) for b in ATOM_BEATS], columns=["0", "1", "last"], kinds=["hit", "hold 1/2 beat", "hold 6 beats"], keys=[4, 7]))
 
 
